@@ -179,6 +179,13 @@ func checkC20(R *Run) {
 				continue
 			}
 			pc := classifyPath(symc(c.Args[0]))
+			if pc.kind == "none" && P.reaches(c.Args[0], func(x ssa.Value) bool {
+				g := callValue(x)
+				return g != nil && calleeName(&g.Call) == "path/filepath.Glob" && strings.Contains(P.sym(g.Call.Args[0]), ".yaml") && fname(rootFn(fn)) == "mobius.NewYAMLAccountManager"
+			}) {
+				// an element of the loader's glob over the accounts directory is a live account file
+				pc = pathClass{kind: "live", store: "mobius.YAMLAccountManager"}
+			}
 			if pc.kind == "none" {
 				continue
 			}
